@@ -1,6 +1,7 @@
 package main
 
 import (
+	"sync/atomic"
 	"regexp"
 	"os/exec"
 	"strings"
@@ -173,6 +174,9 @@ func cmdCheck(prop, tier string, keep bool) int {
 			rp := writeReplay(prop, r, "obligation of the accepted baseline is no longer generated")
 			fmt.Printf("VIOLATION property=%s replay=%s obligation=%s no-failing-input-found\n", prop, rp, r.Name)
 		}
+	}
+	if n := atomic.LoadInt32(&skippedInstances); n > 0 {
+		fmt.Printf("NOTE: %d path instances were not solved after the first %d failing ones (the run already reports violations)\n", n, failureBudget)
 	}
 	if len(pr.Obls) == 0 {
 		fmt.Printf("VIOLATION property=%s replay=%s no-failing-input-found\n", prop, filepath.Join(verifDir, "replays", prop, "no_obligations.json"))
